@@ -524,6 +524,20 @@ set_ixor(Bucket* self, PyObject* other)
             Py_INCREF(Py_NotImplemented);
             return Py_NotImplemented;
         }
+        /* Toggle every key once, however often *other* yields it:
+         * go through a Set of the keys (sorted, no duplicates).
+         */
+        v = PyObject_CallFunctionObjArgs((PyObject*)&SetType, iter, NULL);
+        Py_DECREF(iter);
+        iter = NULL;
+        if (v == NULL) {
+            goto err;
+        }
+        iter = PyObject_GetIter(v);
+        Py_DECREF(v);
+        if (iter == NULL) {
+            goto err;
+        }
 
         while (1) {
             v = PyIter_Next(iter);
